@@ -40,6 +40,7 @@ EXTENDS Integers, Sequences, FiniteSets
 
 CONSTANTS Alphabet, MaxAll, MaxTail,            \* exhaustive strings / "__" ++ exhaustive tails
           TailChars, MaxPTail, MaxDTail, MaxD2Tail, \* "__p1:" / "__d1:" / "__d1:1:x:" ++ exhaustive tails
+          MaxD3Tail,                            \* "__d1:1:x:0::" and "__d1:1:x:1:x:" ++ exhaustive tails (second length field)
           PayChars, MaxPay, MaxDeltaPay,        \* round-trip domain: payload / prev alphabets and lengths
           EpochChars, MaxEpoch, Offs,
           MaxBasePay, BaseOffs, SubstChars      \* base frames for prefixes / substitutions / deletions
@@ -187,13 +188,15 @@ MkRow(tag, q, rt) ==
 P1 == <<"_", "_", "p", "1", ":">>
 D1 == <<"_", "_", "d", "1", ":">>
 D1X == <<"_", "_", "d", "1", ":", "1", ":", "x", ":">>
+D1Y == D1X \o <<"0", ":", ":">>                 \* empty previous payload consumed: the payload length follows
+D1Z == D1X \o <<"1", ":", "x", ":">>            \* one-byte previous payload consumed
 Kinds == {"plain", "join", "leave", "pos", "delta"}
 
 Seeds ==
        {<<"seed", "all", c, 0>> : c \in Alphabet \cup {""}}
   \cup {<<"seed", "us", c, 0>> : c \in Alphabet}
   \cup {<<"seed", f, c, 0>> : f \in {"p1", "d1"}, c \in TailChars \cup {""}}
-  \cup {<<"seed", "d1x", c, 0>> : c \in (TailChars \ {"_"}) \cup {""}}
+  \cup {<<"seed", f, c, 0>> : f \in {"d1x", "d1y", "d1z"}, c \in (TailChars \ {"_"}) \cup {""}}
   \cup {<<"seed", "enc", k, o>> : k \in Kinds, o \in Offs}
   \cup {<<"seed", f, k, o>> : f \in {"prefix", "subst", "del"}, k \in Kinds, o \in BaseOffs}
 
@@ -207,6 +210,8 @@ Expand ==
        [] f = "p1"  -> SomeTail(LAMBDA q : row' = MkRow(f, q, TRUE), P1, c, TailChars, MaxPTail)
        [] f = "d1"  -> SomeTail(LAMBDA q : row' = MkRow(f, q, TRUE), D1, c, TailChars, MaxDTail)
        [] f = "d1x" -> SomeTail(LAMBDA q : row' = MkRow(f, q, TRUE), D1X, c, TailChars \ {"_"}, MaxD2Tail)
+       [] f = "d1y" -> SomeTail(LAMBDA q : row' = MkRow(f, q, TRUE), D1Y, c, TailChars \ {"_"}, MaxD3Tail)
+       [] f = "d1z" -> SomeTail(LAMBDA q : row' = MkRow(f, q, TRUE), D1Z, c, TailChars \ {"_"}, MaxD3Tail)
        [] f = "enc" -> SomeField(LAMBDA x : row' = MkRow(f, Enc(x), Decode(Enc(x)) = Expected(x)),
                                  c, o, MaxPay, MaxDeltaPay, MaxEpoch)
        [] f = "prefix" -> SomeField(LAMBDA x : \E n \in 0..Len(Enc(x)) : row' = MkRow(f, Take(Enc(x), n), TRUE),
